@@ -15,8 +15,14 @@ from .pool import run_shards, chunks, WORKERS
 
 
 def bfs(expand, ctx, init_hist, init_hash, max_depth, deadline, acc, max_states=200000, label="bfs",
-        shards_per_level=None):
+        shards_per_level=None, on_lasso=None):
+    """on_lasso: when given, `next` entries are (state_hash, history, timeless_hash) and the search reports every
+    new state whose *timeless* canonical form (absolute time removed) already occurred on the path that first
+    reached it: the environment can then repeat that segment for ever, i.e. the execution has no time bound.
+    on_lasso(history, ancestor_depth) -> (signature, detail, case) is recorded as a failing case (once per label)."""
     seen = {init_hash}
+    parent = {init_hash: (None, None)}      # state -> (parent state, timeless hash)
+    lassos = 0
     frontier = [tuple(init_hist)]
     depth = 0
     closed = False
@@ -43,9 +49,25 @@ def bfs(expand, ctx, init_hist, init_hash, max_depth, deadline, acc, max_states=
         acc.merge(sub)
         depth += 1
         frontier = []
-        for k, hist in nxt:
+        for ent in nxt:
+            k, hist = ent[0], ent[1]
             if k not in seen:
                 seen.add(k)
+                if on_lasso is not None and len(ent) > 3:
+                    tl, par = ent[2], ent[3]
+                    parent[k] = (par, tl)
+                    a, steps = par, 1
+                    while a is not None:
+                        pa, atl = parent.get(a, (None, None))
+                        if atl == tl:
+                            lassos += 1
+                            if lassos <= 3:
+                                sig, detail, case = on_lasso(tuple(hist), steps)
+                                acc.fail(sig, detail, case)
+                            break
+                        a, steps = pa, steps + 1
+                    if a is not None:
+                        continue            # do not expand a state that only repeats an ancestor
                 frontier.append(tuple(hist))
         acc.max_depth = max(acc.max_depth, depth)
     for k in seen:
@@ -54,6 +76,8 @@ def bfs(expand, ctx, init_hist, init_hash, max_depth, deadline, acc, max_states=
     acc.info["%s states" % label] = len(seen)
     acc.info["%s depth" % label] = depth
     acc.info["%s closed" % label] = closed
+    if on_lasso is not None:
+        acc.info["%s lassos" % label] = lassos
     if acc.closed is None:
         acc.closed = closed
     else:
